@@ -1,4 +1,5 @@
 import Driver.Proto
+import AdaVerif.Model.AggPath
 import AdaVerif.Model.AggLayout
 import AdaVerif.Model.UrlRec
 import AdaVerif.Model.Encode
@@ -71,6 +72,7 @@ def applyEditor (a : Agg) (ed : String) (x : Bytes) (flags : Option (Bool × Boo
   | "set_port" =>
     let dflt := if special then Spec.defaultPort (getProtocol a).dropLast else none
     some (setPortM 4000000000 isFile dflt a x).1
+  | "consume_prepared_path" => some (consumePreparedPath a (if isFile then 6 else if special then 0 else 1) x)
   | "set_search" => if x.isEmpty then none else some (setSearchM 4000000000 special a x)
   | "set_hash" => if x.isEmpty then none else some (setHashM 4000000000 a x)
   | "set_scheme" => some (setScheme a x)
